@@ -191,7 +191,21 @@ def C12_5(ctx, facts):
     fwd.fwd_tls_stream(ctx, facts, "client::conn::stream::tls::TlsStream", "State", "client TlsStream")
 
 
+def C12_6(ctx, facts):
+    """A pooled connection is reused by key: an `https` request must never share a key with a plaintext origin.  C06.1's
+    obligations on the key are claimed here: the scheme is a field of the key, it is the request URI's scheme unmodified, and
+    equality / hashing are the derived ones over both fields (a hand-written Eq that ignores the scheme would put https and http
+    requests to one host:port on the same connection)."""
+    import c06
+    n0 = len(ctx.obs)
+    c06.C06_1(ctx, facts)
+    mine = [o for o in ctx.obs[n0:] if o.key.startswith("UriKey")]
+    ctx.obs[n0:] = mine
+    ctx.floor("UriKey|claimed-obligations", len(mine), 6, "obligations on the pool key claimed from C06.1")
+
+
 RULES = [
+    ("C12.6", C12_6, CFG),
     ("C12.1", C12_1, CFG),
     ("C12.2", C12_2, CFG),
     ("C12.3", C12_3, CFG),
